@@ -11,5 +11,7 @@ import (
 	_ "verifharness/internal/c07"
 	_ "verifharness/internal/c11"
 	_ "verifharness/internal/c13"
+	_ "verifharness/internal/c14"
+	_ "verifharness/internal/c15"
 	_ "verifharness/internal/c17"
 )
